@@ -83,4 +83,42 @@ def assignAccepts (dk : DynKind) (old : Val) (s : Src) (withBuf : Bool) (o : Ass
     -- with a buffer the produced text lives in the buffer
     (!(withBuf && dk.family == .text && s.kind.family != .text && contentLen v > 0) || o.inBuf == "1")
 
+/-- What the harness observes for an outcome `r` of the chain (`none`: inexact operand, the driver skips the
+record). `noBuf`: Assign, or AssignBuf with a nil buffer. -/
+def assignObsOf (r : AssignR) (dk : DynKind) (old : Val) (s : Src) (noBuf : Bool) : Option AssignObs :=
+  match r with
+  | .panic => some { panicked := true }
+  | .inexact => none
+  | .no => some { ret := false, v := old, inBuf := (if noBuf || contentLen old == 0 then "-" else "0") }
+  | .ok v =>
+    let inb :=
+      if dk.family != .text || contentLen v == 0 || noBuf then "-"
+      else if s.kind.family == .text then "0" else "1"
+    some { ret := true, v := v, inBuf := inb }
+
+/-- The in-buffer flag of an untouched / aliased destination is not part of the tie. -/
+def AssignObs.norm (o : AssignObs) : AssignObs := if o.inBuf == "1" then o else { o with inBuf := "-" }
+
+/-! Hypotheses of the C19 / C16 theorems on a source operand (decidable; evaluated by the driver). -/
+
+/-- The value of a source has the representation its dynamic kind demands (a nil pointer is allowed for
+every kind, nothing is demanded of a foreign source). No range condition. -/
+def Src.wt (s : Src) : Bool :=
+  match s.kind, s.v with
+  | .foreign, _ => true
+  | _, .nilptr => true
+  | .bool, .bool _ => true
+  | .string, .str _ => true
+  | .bytes, .bytes _ _ _ => true
+  | k, .int _ => k.family == .signed
+  | k, .uint _ => k.family == .unsigned
+  | k, .float _ => k.family == .float
+  | _, _ => false
+
+/-- The only part of `Src.wt` the theorem needs: a numeric source stored into a bool destination does not
+carry a bool or a text as its value. -/
+def boolSrcTyped (dk : DynKind) (s : Src) : Bool :=
+  !(dk == .bool && (s.kind.family == .signed || s.kind.family == .unsigned || s.kind.family == .float) &&
+    (match s.v with | .bool _ | .str _ | .bytes _ _ _ => true | _ => false))
+
 end Inspector
